@@ -398,4 +398,55 @@ func ZZ_C12_step_SlashValidator_v2() {
 	zzReach("C12.slash2.done")
 }
 
+
+// HandleMessageStake: a new validator or delegate (address 1) staked by account 2, next to an
+// existing validator 0; also the attempt to stake an address that already exists. Validators must
+// hold BLS keys (the handler type-asserts it), so key parsing yields a real BLS key object over an
+// opaque curve point.
+//
+//zz:harness mode=int unwind=60 maxpaths=60000 timebudget=1500 param.committeeshapes=2
+//zz:reach C12.stake.ok C12.stake.rejected C12.stake.done
+func ZZ_C12_step_Stake() {
+	zzRealBLS = true
+	sm, _ := zzFSM(5)
+	zzProtocol(sm, zzConcrete(zzInt("protocol"), 1, 2))
+	_, bal := zzStakingWorldAcc(sm, 1)
+	sup0, _ := sm.GetSupply()
+	who := zzConcrete(zzInt("newAddress"), 0, 1) // 0 = already a validator, 1 = new
+	msg := &MessageStake{PublicKey: zzAddr(who), Amount: zzN64("amount"), OutputAddress: zzAddr(2), Signer: zzAddr(2), Delegate: zzBool("asDelegate"), Compound: zzBool("compound")}
+	switch zzConcrete(zzInt("newCommittees"), 0, 2) {
+	case 0:
+		msg.Committees = []uint64{1}
+	case 1:
+		msg.Committees = []uint64{1, 2}
+	case 2:
+		msg.Committees = []uint64{2, 1}
+	}
+	if !msg.Delegate {
+		msg.NetAddress = "tcp://x"
+	}
+	err := sm.HandleMessageStake(msg)
+	if err != nil {
+		zzReach("C12.stake.rejected")
+		a, _ := sm.GetAccountBalance(crypto.NewAddress(zzAddr(2)))
+		sm.ResetCaches()
+		_ = a
+	} else {
+		zzReach("C12.stake.ok")
+		zzAssert("C12.stake.existing-address-is-refused", who == 1)
+		v, e := sm.GetValidator(crypto.NewAddress(zzAddr(1)))
+		zzAssert("C12.stake.record-written", e == nil)
+		if e == nil {
+			zzAssert("C12.stake.record-matches-message", v.StakedAmount == msg.Amount && v.Delegate == msg.Delegate && v.UnstakingHeight == 0 && v.MaxPausedHeight == 0)
+		}
+		a, _ := sm.GetAccountBalance(crypto.NewAddress(zzAddr(2)))
+		zzAssert("C12.stake.signer-pays-exactly-the-stake", bal-a == msg.Amount && a <= bal)
+		sup, _ := sm.GetSupply()
+		zzAssert("C12.stake.total-supply-unchanged", sup.Total == sup0.Total)
+		zzInv12(sm, "C12.stake", 2)
+		zzNoWedge(sm, "C12.stake")
+	}
+	zzReach("C12.stake.done")
+}
+
 var _ = lib.JoinLenPrefix
